@@ -170,7 +170,9 @@ pub fn judge(check: &str, tier: &str, case: &Case, seed: u64, run: u64) -> CaseR
     // (their validity, O2/O3b, still is). The finding itself is probed by fixed witness programs.
     let ws = witnesses(check);
     let is_witness = (run as usize) < ws.len();
-    if has_try_acquire(&case.program) && !is_witness {
+    if (has_try_acquire(&case.program) || has_unpark_order_sensitivity(&case.program) || (check != "C02" && has_sc_fence_order_sensitivity(&case.program)))
+        && !is_witness
+    {
         opts.o1 = None;
         opts.o3_must_classes.clear();
     }
@@ -180,6 +182,11 @@ pub fn judge(check: &str, tier: &str, case: &Case, seed: u64, run: u64) -> CaseR
         let mut m = opts.o1.clone().unwrap_or_else(MachineCfg::must);
         m.switch_only_at_branch_points = false;
         opts.o1 = Some(m);
+        if check == "C04" {
+            opts.o1 = None;
+        } else if !opts.o3_must_classes.contains(&FailClass::Deadlock) {
+            opts.o3_must_classes.push(FailClass::Deadlock);
+        }
     }
     let mut rep = run_case(&case.program, &case.config, &opts, &mut rng);
     if is_witness {
@@ -203,6 +210,48 @@ pub fn has_try_acquire(p: &Program) -> bool {
     })
 }
 
+/// `unpark` has no scheduling point and is not tracked by loom's partial-order reduction (K6):
+/// the order between one thread's return from `park` and another thread's `unpark` is only
+/// explored as far as other operations force it. That order matters exactly when a thread parks
+/// more than once and is unparked more than once (an unpark is absorbed while another is pending).
+pub fn has_unpark_order_sensitivity(p: &Program) -> bool {
+    fn strip(op: &Op) -> &Op {
+        let mut o = op;
+        while let Op::If { then, .. } = o {
+            o = then;
+        }
+        o
+    }
+    for t in 0..p.threads.len() {
+        let parks = p.threads[t].iter().filter(|o| matches!(strip(o), Op::Park)).count();
+        let unparks = p.threads.iter().flatten().filter(|o| matches!(strip(o), Op::Unpark { t: x } if *x as usize == t)).count();
+        if parks >= 2 && unparks >= 2 {
+            return true;
+        }
+    }
+    false
+}
+
+/// SeqCst fences have no scheduling point either (K6): the order of two SeqCst fences of
+/// different threads is only explored as far as other operations force it. For non-atomic data
+/// that order decides what happens-before what.
+pub fn has_sc_fence_order_sensitivity(p: &Program) -> bool {
+    let with_fence = p
+        .threads
+        .iter()
+        .filter(|t| {
+            t.iter().any(|op| {
+                let mut o = op;
+                while let Op::If { then, .. } = o {
+                    o = then;
+                }
+                matches!(o, Op::Fence { o: MO::Sc })
+            })
+        })
+        .count();
+    with_fence >= 2
+}
+
 /// Fixed witness programs of open known findings, run as the first runs of a check:
 /// (finding id, program, violation kind expected while the finding is open).
 pub fn witnesses(check: &str) -> Vec<(&'static str, Program, &'static str)> {
@@ -222,6 +271,36 @@ pub fn witnesses(check: &str) -> Vec<(&'static str, Program, &'static str)> {
             vec![Op::RLock { l: 0 }, Op::RUnlock { l: 0 }],
         ];
         v.push(("K6-ops-without-scheduling-point", p, "missing_outcome"));
+    }
+    if check == "C04" {
+        // the race exists when T2 (fence, then write) runs before T1 (write, then fence); loom only
+        // explores the fence order in which T1's fence comes first
+        let mut p = Program { atomics: vec![0, 0], n_cell: 1, ..Default::default() };
+        p.threads = vec![
+            vec![
+                Op::Spawn { t: 1 },
+                Op::Spawn { t: 2 },
+                Op::Load { a: 0, o: MO::Acq },
+                Op::Fence { o: MO::Sc },
+                Op::Store { a: 1, v: 32, o: MO::Rlx },
+                Op::Join { t: 1 },
+                Op::Join { t: 2 },
+            ],
+            vec![Op::CWrite { c: 0 }, Op::Fence { o: MO::Sc }, Op::Store { a: 0, v: 16, o: MO::Rlx }],
+            vec![Op::Load { a: 1, o: MO::Rlx }, Op::Fence { o: MO::Sc }, Op::If { pc: 0, eq: 32, then: Box::new(Op::CWrite { c: 0 }) }],
+        ];
+        v.push(("K6-ops-without-scheduling-point", p, "missed_report"));
+    }
+    if check == "C01" || check == "C05" || check == "C08" {
+        // two unparks racing with the wake-up of a thread that parks twice: the deadlock (second
+        // unpark absorbed) is never explored
+        let mut p = Program::default();
+        p.threads = vec![
+            vec![Op::Spawn { t: 1 }, Op::Spawn { t: 2 }, Op::Park, Op::Park],
+            vec![Op::Unpark { t: 0 }],
+            vec![Op::Unpark { t: 0 }],
+        ];
+        v.push(("K6-ops-without-scheduling-point", p, "missed_report"));
     }
     v
 }
